@@ -147,6 +147,9 @@ def run_case(case):
                 vals[i].grad = g
                 pre[i] = g.detach().clone()
         rank = {id(vals[l]): order[j] for j, l in enumerate(members)} if len(order) == len(members) else {}
+        # sets of OUTPUT tensors (e.g. Init's values) iterate in listing order for even configurations, reversed for odd ones
+        for j, o in enumerate(outs):
+            rank[id(vals[o])] = 200 + (j if ci % 2 == 0 else len(outs) - 1 - j)
         agg = RecordingAggregator(_make_agg(aggname, m, dtype))
         sig_cfg = f"inputs={listing} order={order} agg={aggname} chunk={chunk} {dtype} containers={cont}"
         tensors_arg = [vals[o] for o in outs]
